@@ -232,7 +232,7 @@ def run(ctx) -> int:
         "re / str primitives never raise on str input; surrogate code points excluded; linkify-it-py absent (its guard is modelled)"])
     cov.update({
         "evaluations": n_corr + sum(counts.values()), "distinct_nontrivial": len(set(lines)) + sum(counts.values()),
-        "rule": "correspondence: (configuration, API, document) with documents from the seed corpus, mutations, the container x leaf grammar, the 47-shape line alphabet, truncations and the Unicode-white-space family (27 blanks / references at every trimming or splitting site); implementation: generated documents x configuration lattice x 4 APIs; ALL pairs of line shapes (2209) and sampled 3-4 line sequences, with and without final LF, under js-default / html+table / typographer configurations; truncated seeds; 40 deep-nesting / long-run families at depths 40 and 150 (thorough: up to 2500) incl. maxNesting=3; CLI on random bytes; the documented TypeErrors and ModuleNotFoundError",
+        "rule": "correspondence: (configuration, API, document) with documents from the seed corpus, mutations, the container x leaf grammar, the 53-shape line alphabet, truncations and the Unicode-white-space family (27 blanks / references at every trimming or splitting site); implementation: generated documents x configuration lattice x 4 APIs; ALL pairs of line shapes (2809) and sampled 3-4 line sequences, with and without final LF, under js-default / html+table / typographer configurations; truncated seeds; 40 deep-nesting / long-run families at depths 40 and 150 (thorough: up to 2500) incl. maxNesting=3; CLI on random bytes; the documented TypeErrors and ModuleNotFoundError",
         "samples": [{"src": cases[1][2], "api": cases[1][1]}, {"family": deep_families(5)[8]}],
         "traces_validated_against_impl": n_corr, "implementation_probes": counts,
         "in_kernel_cases": kn, "in_kernel_mismatches": len(kbad), "disagreements": len(disagreements),
